@@ -157,12 +157,14 @@ def plan(prop, tier):
                     floor_evaluations=5000, assumptions=SIMK_ASSUMPTIONS, also=[])
     if prop == "C11":
         rule = ("baton-scheduler schedules of one ring thread calling Ring::poll(None) against 1-3 threads calling SubmissionQueue::wake, families: S1 concurrent wakes, S2 wakes completed before the poll starts, S3 loop where wake i+1 is issued only after poll i returned; "
-                "default, kernel-thread (simulated SQPOLL thread) and single-issuer rings (IORING_REGISTER_SEND_MSG_RING path), optionally with a full submission queue when the wake message must be queued; oracle: a poll blocked in the simulated kernel with nothing to deliver once every wake() returned (no runnable thread left) is a lost wake-up; wake() after the Ring was dropped must be harmless; distinct = switch-sequence hash + configuration")
+                "default, kernel-thread (simulated SQPOLL thread) and single-issuer rings (IORING_REGISTER_SEND_MSG_RING path), optionally with a full submission queue when the wake message must be queued; oracle: a poll blocked in the simulated kernel with nothing to deliver once every wake() returned (no runnable thread left) is a lost wake-up; wake() after the Ring was dropped must be harmless; distinct = switch-sequence hash + configuration; "
+                "plus the real kernel (scenario c11real): a thread blocked in Ring::poll(2 s) and 1-2 threads calling wake() after a random spin, 20-80 rounds per ring, default/single-issuer/kernel-thread rings; a poll that times out is followed by a second one and only two expired polls after the wake() calls returned count as a lost wake-up")
         if tier == "quick":
-            jobs = [gen_job("c11", "native-debug", 1500, 8, timeout=600), gen_job("c11free", "miri", 2, 4, timeout=900)]
+            jobs = [gen_job("c11", "native-debug", 1500, 8, timeout=600), gen_job("c11free", "miri", 2, 4, timeout=900), gen_job("c11real", "native-debug", 40, 8, timeout=900)]
         else:
-            jobs = [gen_job("c11", "native-debug", 40000, 16, timeout=3000), gen_job("c11", "native-release", 40000, 16, timeout=3000), gen_job("c11", "asan", 2000, 16, timeout=3000), gen_job("c11free", "tsan", 200, 8, timeout=3000), gen_job("c11free", "miri", 8, 16, timeout=3000)]
-        return dict(jobs=jobs, level="exploration", rule=rule, floor_cells=["family:S1-concurrent", "family:S2-wake-before-poll", "family:S3-poll-loop", "ring:default", "ring:kernel-thread", "ring:single-issuer", "queue-full-at-wake", "wake-after-ring-dropped", "sched_kernel_blocks", "simk_msg_rings"],
+            jobs = [gen_job("c11", "native-debug", 40000, 16, timeout=3000), gen_job("c11", "native-release", 40000, 16, timeout=3000), gen_job("c11", "asan", 2000, 16, timeout=3000), gen_job("c11free", "tsan", 200, 8, timeout=3000), gen_job("c11free", "miri", 8, 16, timeout=3000),
+                    gen_job("c11real", "native-debug", 1500, 16, timeout=3000), gen_job("c11real", "native-release", 1500, 16, timeout=3000)]
+        return dict(jobs=jobs, level="exploration", rule=rule, floor_cells=["family:S1-concurrent", "family:S2-wake-before-poll", "family:S3-poll-loop", "ring:default", "ring:kernel-thread", "ring:single-issuer", "queue-full-at-wake", "wake-after-ring-dropped", "sched_kernel_blocks", "simk_msg_rings", "real_wake_rounds"],
                     floor_evaluations=2000, assumptions=SIMK_ASSUMPTIONS + ["liveness is judged in the bounded form 'a state in which no thread can run' under the scheduler, not by wall-clock time"], also=[])
     if prop == "C16":
         rule = ("(a) pure round trip storage -> bytes a10 hands to the kernel -> init with the length the kernel reports for that family (model: 16/28, path strlen+1 with and without NUL, unnamed 2), the rest of the storage filled with garbage: random and edge IPv4/IPv6 addresses, ports, flow labels, scope ids, Unix path names of every length 1..107; "
